@@ -281,7 +281,10 @@ class UTPM(Ring, RawAlgorithmsMixIn):
         ybar, dummy, xbar = out
         # print 'xbar =', xbar
         # print 'ybar =', ybar
-        if isinstance(xbar, UTPM) and xbar.shape != ybar[sl].shape:
+        if not isinstance(xbar, UTPM):
+            # x is a constant (scalar or array): it has no adjoint
+            pass
+        elif xbar.shape != ybar[sl].shape:
             # x has been broadcasted into y[sl]: sum the adjoint over the broadcasted axes
             xbar2, tmp = cls.broadcast(xbar, ybar[sl])
             workaround_strides_function(xbar2, tmp, operator.iadd)
